@@ -371,6 +371,9 @@ def shards(tier):
         for r in rows:
             out.append({"part": "vec", "kind": kind, "rows": r})
     out.append({"part": "pylist"})
+    # first-use probes: each runs in a fresh interpreter, as the very first thing the library does there
+    for what in FRESH_CALLS:
+        out.append({"part": "fresh", "what": what, "__env__": {"MC_FRESH": "1"}})
     depth = 2 if tier == "quick" else 3
     for init in range(len(dfbfs.INITS)):
         out.append({"part": "bfs", "init": init, "prefix": [], "depth": 1})
@@ -379,7 +382,9 @@ def shards(tier):
             out.append({"part": "bfs", "init": init, "prefix": [op], "depth": depth - 1})
             if op["op"] in dfbfs.INPLACE:
                 out.append({"part": "bfs", "init": init, "prefix": [op], "depth": depth, "hidden_then_any": True})
-    return out
+    from mc import harness
+    # frames built from plain Python lists, observed (sorted, rendered ...) as the first thing that happens in the process
+    return harness.with_array_forms(out, tier, lambda sh: sh["part"] == "bfs" and sh["prefix"] and sh["prefix"][0]["op"] == "observe" and not sh.get("hidden_then_any"))
 
 
 def run_call(rec, what, label, build, fn, case):
@@ -511,7 +516,52 @@ def check_pylist(case, rec):
     rec.outcome((call, after))
 
 
+FRESH_CALLS = ["to_string", "to_string narrow", "repr", "print_", "sort", "unique", "filter", "column to_strings", "column sort", "to_json"]
+
+
+def check_fresh(case, rec):
+    """A frame built from plain Python lists, and ONE method called on it, as the first thing that happens in the
+    interpreter (replayed the same way): the receiver is unchanged."""
+    what = case["what"]
+    long = "a rather long remark that does not fit into a table cell of the default width"
+    d = di.DataFrame(id=[3, 1, 2], s=["short", long, "first line\nsecond line"], f=[1.5, None, 2.5])
+    before = snap(d)
+    rec.state(before)
+    rec.case(("fresh", what), True)
+    rec.trans()
+    try:
+        if what == "to_string":
+            d.to_string()
+        elif what == "to_string narrow":
+            d.to_string(truncate_width=3, max_rows=2)
+        elif what == "repr":
+            repr(d)
+        elif what == "print_":
+            _quiet(lambda: d.print_())
+        elif what == "sort":
+            d.sort(s=1)
+        elif what == "unique":
+            d.unique("s")
+        elif what == "filter":
+            d.filter(s="short")
+        elif what == "column to_strings":
+            d.s.to_strings(quote=False, truncate_width=5)
+        elif what == "column sort":
+            d.s.sort()
+        else:
+            d.to_json()
+    except Exception as e:
+        rec.count("calls_raised")
+        rec.outcome((what, "raised", type(e).__name__))
+    if snap(d) != before:
+        rec.violation(f"DataFrame.{what}", "operand-changed", case, f"the receiver changed: {V.frame_rows(d)}")
+        return
+    rec.outcome((what, "unchanged"))
+
+
 def check_case(case, rec):
+    if case.get("part") == "fresh":
+        return check_fresh(case, rec)
     if case.get("part") == "pylist":
         return check_pylist(case, rec)
     if case.get("part") == "df":
@@ -548,6 +598,10 @@ def check_case(case, rec):
 
 
 def run_shard(shard, rec):
+    if shard["part"] == "fresh":
+        check_case({"part": "fresh", "what": shard["what"]}, rec)
+        rec.sample({"part": "fresh", "what": shard["what"]})
+        return
     if shard["part"] == "pylist":
         for i in range(len(PYLISTS)):
             for call in PYLIST_CALLS:
